@@ -338,6 +338,31 @@ Proof.
     rewrite (sha_check_true _ _ _ _ E). reflexivity.
 Qed.
 
+Lemma sha_check_fixed : forall is512 cred f,
+  KV.C30.Model.sha_check_gen true is512 cred f =
+  if negb is512 && negb (KV.C30.Model.sha256_field_ok f) then KV.C30.Model.VOk false
+  else KV.C30.Model.sha_check_gen false is512 cred f.
+Proof.
+  intros is512 cred f. unfold KV.C30.Model.sha_check_gen. rewrite prepare_fixed.
+  destruct (negb is512 && negb (KV.C30.Model.sha256_field_ok f)); reflexivity.
+Qed.
+
+(* on the fixed tree: yes exactly for a supported field that passes the guard and verifies *)
+Lemma check_pw_fixed_true_iff : forall yt f cred,
+  check_pw_gen true yt f cred = PwOk true <->
+  field_guard f && (supported f && crypt_verifies yt f cred) = true.
+Proof.
+  intros yt f cred. pose proof (check_pw_true_iff yt f cred) as Hu.
+  unfold check_pw_gen, field_guard, supported in *. destruct (classify f) eqn:Ec.
+  - rewrite sha_check_fixed. cbn [negb andb].
+    destruct (KV.C30.Model.sha256_field_ok f); cbn [negb andb].
+    + exact Hu.
+    + split; discriminate.
+  - rewrite sha_check_fixed. cbn [negb andb]. exact Hu.
+  - cbn [andb]. exact Hu.
+  - cbn [andb]. exact Hu.
+Qed.
+
 Lemma check_pw_invalid : forall fixed yt f cred,
   classify f = CInvalid -> check_pw_gen fixed yt f cred = PwOk false.
 Proof. intros fixed yt f cred H. unfold check_pw_gen. rewrite H. reflexivity. Qed.
@@ -488,6 +513,18 @@ Proof.
   rewrite (fallback_success_check false o h ct users shadow yt H), fallback_legit_iff.
   split; intros (ent & cred & H1 & H2 & H3 & H4); exists ent, cred; repeat split; try assumption;
     apply check_pw_true_iff; exact H4.
+Qed.
+
+Lemma fallback_fixed_success_iff : forall o h ct users shadow yt, handler_sane h = true ->
+  r_out (auth_fallback_gen true o h ct users shadow yt) = ORet PAM_SUCCESS <->
+  exists ent cred, local_entry h users shadow = Some ent /\ expired ct ent = false /\
+                   supplied_password o h = Some cred /\
+                   field_guard (s_pw ent) && (supported (s_pw ent) && crypt_verifies yt (s_pw ent) cred) = true.
+Proof.
+  intros o h ct users shadow yt H.
+  rewrite (fallback_success_check true o h ct users shadow yt H).
+  split; intros (ent & cred & H1 & H2 & H3 & H4); exists ent, cred; repeat split; try assumption;
+    apply check_pw_fixed_true_iff; exact H4.
 Qed.
 
 (* ------------------------------------------------------------------ acct_mgmt *)
